@@ -474,3 +474,36 @@ def _r9(ctx: Context, tree: str, N: Names) -> None:
         for a in attrs:
             rep.ob("C01.R9", fkey(tree, init, f"instance-state:{a}"), a in inst, where(init), f"{cn}.{a} is created per instance in __init__" if a in inst else
                    f"{cn}.{a} is not created in __init__: instances share (or lack) it")
+
+
+_core_run = run
+
+
+def _closed_before_suspension(ctx: Context) -> None:
+    """The close routine runs without any lock (the pool calls it on eviction).  The CLOSED state must be stored BEFORE the
+    routine's first suspension point / blocking call: otherwise the connection still reports IDLE (HTTP/1.1) or available
+    (HTTP/2) while its stream is being shut down, and a request that was already assigned to it passes the gate and is sent on
+    a connection that is closing - "closed and never reused" is violated."""
+    rep = ctx.rep
+    for tree, N in trees(ctx):
+        for mod, cn in (("http11", "AsyncHTTP11Connection"), ("http2", "AsyncHTTP2Connection")):
+            c = N.cls(mod, cn)
+            f = c.methods[N.t("aclose")] if N.t("aclose") in c.methods else c.methods.get("aclose") or c.methods.get("close")
+            cfg = ctx.cfg(f)
+            stores = [n for n in cfg.nodes if n.kind == "stmt" and isinstance(n.ast, ast.Assign) and norm(n.ast.targets[0]) == "self._state" and const_name(n.ast.value) == "CLOSED"]
+            if not stores:
+                rep.ob("C01.R10", fkey(tree, f, "closed-before-suspension"), False, where(f), f"{f.short} never stores CLOSED")
+                continue
+            sn = stores[0]
+            early = [n for n in cfg.nodes if n is not sn and n.ast is not None and not cfg.dominates(sn, n)
+                     and (n.may_cancel() or any(isinstance(x, ast.Call) and (chain(x.func) or [""])[-1] in ("aclose", "close") and (chain(x.func) or [""])[0] == "self" and len(chain(x.func) or []) > 2 for x in ast.walk(n.ast)))]
+            rep.ob("C01.R10", fkey(tree, f, "closed-before-suspension"), not early, where(f, sn.ast),
+                   f"{f.short} stores CLOSED before anything that suspends or blocks" if not early else
+                   f"`{early[0].text()}` can run before {f.short} has stored CLOSED: during the close of the stream the connection still passes the request gate "
+                   "and a request already assigned to it is sent on a connection that is being closed")
+
+
+def run(ctx: Context) -> None:  # noqa: F811
+    _core_run(ctx)
+    ctx.rep.rule("C01.R10", "the lock-free close routine stores CLOSED before its first suspension point / blocking call")
+    _closed_before_suspension(ctx)
